@@ -169,6 +169,9 @@ SCHED_SETS = [
     [("INBOX", ["SELECT INBOX", "NOOP", "NOOP"]), ("INBOX", ["EXPUNGE", "NOOP"])],
     [("INBOX", ["EXAMINE INBOX", "NOOP", "UID FETCH 1:* (FLAGS)"]), ("INBOX", ["UID EXPUNGE 2:4", "NOOP"]), ("INBOX", ["UID MOVE 1 other", "NOOP"])],
     [("INBOX", ["NOOP", "SELECT INBOX", "CHECK"]), ("INBOX", ["UID STORE 1:* +FLAGS (\\Deleted)", "EXPUNGE"]), ("INBOX", ["APPEND INBOX", "NOOP"])],
+    # nothing is flagged \\Deleted when the EXPUNGE arrives; a STORE that sets the flag is under way
+    [("#", ["nodeleted"]), ("INBOX", ["UID STORE 3 +FLAGS (\\Deleted)", "NOOP"]), ("INBOX", ["EXPUNGE", "NOOP"]), ("INBOX", ["NOOP", "NOOP"])],
+    [("#", ["nodeleted"]), ("INBOX", ["UID STORE 2:4 +FLAGS (\\Deleted \\Flagged)", "NOOP"]), ("INBOX", ["CLOSE"]), ("INBOX", ["UID FETCH 1:* (FLAGS)", "NOOP"]), ("INBOX", ["EXPUNGE", "NOOP"])],
 ]
 
 
@@ -191,8 +194,10 @@ def run_sched_shard(spec):
         rnd = rng(spec["seed"], "c01sched" if not spec.get("only_flags") else "c04sched", k)
         sets = (spec.get("sets") or SCHED_SETS) + c10.FORCED
         cmdset = sets[k] if k < len(sets) else c10.gen_set(rnd)
-        cmdset = [(w, list(c) + (["NOOP"] if w not in (None, "pop3") else [])) for w, c in cmdset]
-        ctx = {"script": k, "dir": None}
+        # a pseudo entry ("#", [options]) selects a variant of the initial state (c10.setup_state)
+        options = [o for w_, cs in cmdset if w_ == "#" for o in cs]
+        cmdset = [(w, list(c) + (["NOOP"] if w not in (None, "pop3") else [])) for w, c in cmdset if w != "#"]
+        ctx = {"script": k, "dir": None, "options": options}
         hashes = set()
         witness = None
         events = 0
